@@ -398,6 +398,41 @@ pub(crate) fn ct_array32_maybe_set<const N: usize>(a: &mut [i32; N], b: &[i32; N
     }
 }
 
+/// Verification hooks, compiled only with `--cfg cryptoxide_verif`: public wrappers around the
+/// crate-private masked swap / assign helpers so that an external harness can drive them.
+#[cfg(cryptoxide_verif)]
+pub mod verif {
+    use super::Choice;
+
+    /// wrapper of `ct_array64_maybe_swap_with`
+    pub fn array64_maybe_swap_with<const N: usize>(
+        a: &mut [u64; N],
+        b: &mut [u64; N],
+        swap: Choice,
+    ) {
+        super::ct_array64_maybe_swap_with(a, b, swap)
+    }
+
+    /// wrapper of `ct_array32_maybe_swap_with`
+    pub fn array32_maybe_swap_with<const N: usize>(
+        a: &mut [i32; N],
+        b: &mut [i32; N],
+        swap: Choice,
+    ) {
+        super::ct_array32_maybe_swap_with(a, b, swap)
+    }
+
+    /// wrapper of `ct_array64_maybe_set`
+    pub fn array64_maybe_set<const N: usize>(a: &mut [u64; N], b: &[u64; N], swap: Choice) {
+        super::ct_array64_maybe_set(a, b, swap)
+    }
+
+    /// wrapper of `ct_array32_maybe_set`
+    pub fn array32_maybe_set<const N: usize>(a: &mut [i32; N], b: &[i32; N], swap: Choice) {
+        super::ct_array32_maybe_set(a, b, swap)
+    }
+}
+
 #[cfg(test)]
 mod tests {
     use super::*;
